@@ -9,6 +9,7 @@ import (
 	"reflect"
 	"strconv"
 	"strings"
+	"time"
 
 	flags "github.com/jessevdk/go-flags"
 )
@@ -45,9 +46,12 @@ type BuildOp struct {
 }
 
 type Op struct {
-	Kind string // parse | model | help
-	Args []string
-	Cols int
+	Kind       string // parse | model | help | iniparse | iniwrite | man | complete
+	Args       []string
+	Cols       int
+	Text       string
+	AsDefaults bool
+	Bits       uint
 }
 
 type EnvVar struct{ K, V string }
@@ -157,6 +161,14 @@ func (c *Case) Lines(cols int) []string {
 			out = append(out, "model")
 		case "help":
 			out = append(out, fmt.Sprintf("help %d", op.Cols))
+		case "iniparse":
+			out = append(out, fmt.Sprintf("iniparse %d %s %s", cols, b01(op.AsDefaults), hx(op.Text)))
+		case "iniwrite":
+			out = append(out, fmt.Sprintf("iniwrite %d", op.Bits))
+		case "man":
+			out = append(out, "man "+hx(manDate))
+		case "complete":
+			out = append(out, "complete "+hxList(op.Args))
 		}
 	}
 	for _, e := range c.Env {
@@ -194,6 +206,10 @@ type rootStruct struct {
 }
 
 var pkgPath = "main"
+
+// the man page date is an input (clock or SOURCE_DATE_EPOCH): fixed here
+var manEpoch = "86400"
+var manDate = time.Unix(86400, 0).Format("2 January 2006")
 
 // makeStruct builds the dynamic struct value for a description; returns a pointer value.
 func (r *Real) makeStruct(sd *StructDesc) reflect.Value {
@@ -440,6 +456,12 @@ func BuildReal(c *Case) (*Real, []string) {
 			case "ns":
 				s, _ := unhx(b.Vals[0])
 				target.Namespace = s
+			case "shortdesc":
+				s, _ := unhx(b.Vals[0])
+				target.ShortDescription = s
+			case "longdesc":
+				s, _ := unhx(b.Vals[0])
+				target.LongDescription = s
 			}
 		case "setgrp":
 			g := allGroups(target)[b.Gi]
@@ -685,11 +707,77 @@ func (r *Real) RunOps() []string {
 			out = append(out, r.dumpModel()...)
 		case "help":
 			var b strings.Builder
-			if pan := safe(func() { r.p.WriteHelp(&b) }); pan != nil {
+			var pan interface{}
+			got := withCols(op.Cols, func() { pan = safe(func() { r.p.WriteHelp(&b) }) })
+			if got != op.Cols {
+				out = append(out, fmt.Sprintf("HELP WIDTH-NOT-APPLIED %d", got))
+			} else if pan != nil {
 				out = append(out, "HELP PANIC")
 			} else {
 				out = append(out, "HELP "+hx(b.String()))
 			}
+		case "iniparse":
+			r.log.lines = nil
+			ip := flags.NewIniParser(r.p)
+			ip.ParseAsDefaults = op.AsDefaults
+			var err error
+			var pan interface{}
+			so, se := capture(func() {
+				pan = safe(func() { err = ip.Parse(strings.NewReader(op.Text)) })
+			})
+			if pan != nil {
+				out = append(out, fmt.Sprintf("PANIC %v", pan))
+				continue
+			}
+			out = append(out, "INI "+errLine(err, false))
+			out = append(out, r.dumpState()...)
+			out = append(out, r.fixLog(r.log.lines)...)
+			if so != "" {
+				out = append(out, "STDOUT "+hx(so))
+			}
+			if se != "" {
+				out = append(out, "STDERR "+hx(se))
+			}
+		case "iniwrite":
+			var b strings.Builder
+			ip := flags.NewIniParser(r.p)
+			if pan := safe(func() { ip.Write(&b, flags.IniOptions(op.Bits)) }); pan != nil {
+				out = append(out, fmt.Sprintf("PANIC %v", pan))
+			} else {
+				out = append(out, "INIW "+hx(b.String()))
+			}
+		case "man":
+			var b strings.Builder
+			os.Setenv("SOURCE_DATE_EPOCH", manEpoch)
+			if pan := safe(func() { r.p.WriteManPage(&b) }); pan != nil {
+				out = append(out, fmt.Sprintf("PANIC %v", pan))
+			} else {
+				out = append(out, "MAN "+hx(b.String()))
+			}
+			os.Unsetenv("SOURCE_DATE_EPOCH")
+		case "complete":
+			var items []flags.Completion
+			called := false
+			r.p.CompletionHandler = func(it []flags.Completion) { items = it; called = true }
+			os.Setenv("GO_FLAGS_COMPLETION", "1")
+			r.log.lines = nil
+			pan := safe(func() { r.p.ParseArgs(op.Args) })
+			os.Unsetenv("GO_FLAGS_COMPLETION")
+			r.p.CompletionHandler = nil
+			if pan != nil {
+				out = append(out, fmt.Sprintf("PANIC %v", pan))
+				continue
+			}
+			if !called {
+				out = append(out, "COMP-NOT-CALLED")
+				continue
+			}
+			var flat []string
+			for _, it := range items {
+				flat = append(flat, it.Item, it.Description)
+			}
+			out = append(out, "COMP "+hxList(flat))
+			out = append(out, r.fixLog(r.log.lines)...)
 		}
 	}
 	return out
